@@ -750,6 +750,14 @@ func (e *Enc) encodeBody() {
 			e.r.curBlock = b.Index
 		}
 		e.encodeBlockEntry(b)
+		// vacuity guard: the loop body must be enterable under the loop-head assumptions (contradictory invariants would
+		// make every obligation inside the body hold trivially)
+		for _, p := range b.Preds {
+			if li := e.loops[p]; li != nil && li.body[b] && e.loops[b] == nil && e.depth == 0 {
+				e.r.addObl(&Obligation{Name: fmt.Sprintf("%s#cover@%s.body", e.r.fnShort, li.name), Kind: "cover", Goal: e.reach[b], ExpSat: true,
+					Src: "the body of loop " + li.name + " is reachable under its invariants"})
+			}
+		}
 		for _, ins := range b.Instrs {
 			e.instr(ins)
 		}
